@@ -24,8 +24,87 @@ def shape(a):
             tuple(sorted((k, str(v)) for k, v in attrs.items())), tuple(str(getattr(x, "value", x)) for x in a.array) if getattr(a, "array", None) else ())
 
 
+def struct(n):
+    """structure of an expression tree with ParenExpr wrappers removed (parentheses only group)"""
+    cls = type(n).__name__
+    if cls == "ParenExpr":
+        return struct(n.node)
+    if cls == "BinaryOp":
+        return ("bin", n.op, struct(n.left), struct(n.right))
+    if cls == "UnaryOp":
+        return ("un", n.op, struct(n.node))
+    if cls == "Identifier":
+        return ("id", n.name, None if n.args is None else tuple(struct(a) for a in n.args))
+    if cls == "Constant":
+        return ("const", n.value)
+    if cls == "AssumedRank":
+        return ("..",)
+    return (cls,)
+
+
+def strip_attrs(text):
+    import re
+    return re.sub(r'\s*\+\w+(\([^()]*\)|=\w+)?', '', text)
+
+
+def check_cxx(inp):
+    """the C++ compiler's reading of a declaration vs its reading of shroud's rendering of the parsed declaration:
+    static_assert(std::is_same<decltype(original), decltype(rendering)>) for a batch of declarations"""
+    import os, re, subprocess, tempfile, shutil
+    lines = ["#include <string>", "#include <vector>", "#include <type_traits>"]
+    index = {}
+    n = 0
+    for i, text in enumerate(inp["texts"]):
+        try:
+            a = parse(text)
+            if not hasattr(a, "gen_decl"):
+                continue
+            g = a.gen_decl()
+        except (RuntimeError, NotImplementedError):
+            continue
+        orig, rend = strip_attrs(text), strip_attrs(g)
+        ext = "" if a.params is not None else "extern "
+        name = a.name
+        if not name:
+            continue
+        lines.append("namespace o%d { %s%s; }" % (i, ext, orig))
+        index[len(lines)] = (i, "original declaration is not accepted by g++ (not a verdict)")
+        lines.append("namespace r%d { %s%s; }" % (i, ext, rend))
+        index[len(lines)] = (i, "rendering %r is rejected by g++" % g)
+        lines.append('static_assert(std::is_same<decltype(o%d::%s), decltype(r%d::%s)>::value, "D%d");' % (i, name, i, name, i))
+        index[len(lines)] = (i, "g++ derives a different type from the rendering %r" % g)
+        n += 1
+    if not n:
+        return None
+    d = tempfile.mkdtemp(prefix="mrt_")
+    try:
+        open(os.path.join(d, "t.cpp"), "w").write("\n".join(lines) + "\n")
+        r = subprocess.run(["g++", "-std=c++11", "-fsyntax-only", "-fmax-errors=0", "t.cpp"], cwd=d, stdout=subprocess.PIPE,
+                           stderr=subprocess.STDOUT, universal_newlines=True, timeout=300)
+        if r.returncode == 0:
+            return None
+        bad_orig = set()
+        found = []
+        for m in re.finditer(r't\.cpp:(\d+):\d+: error: (.*)', r.stdout):
+            ln = int(m.group(1))
+            if ln in index:
+                i, what = index[ln]
+                if "not a verdict" in what:
+                    bad_orig.add(i)
+                else:
+                    found.append((i, what, m.group(2)))
+        for i, what, msg in found:
+            if i not in bad_orig:
+                return "%s: %s  [declaration %r]" % (what, msg[:120], inp["texts"][i])
+        return None
+    finally:
+        shutil.rmtree(d, ignore_errors=True)
+
+
 def check(inp):
     kind = inp.get("kind", "decl")
+    if kind == "cxx":
+        return check_cxx(inp)
     if kind == "expr":
         from shroud import declast, todict
         e = inp["text"]
@@ -44,6 +123,8 @@ def check(inp):
         src = e.replace(" ", "")
         if p1.replace("(", "").replace(")", "") != src.replace("(", "").replace(")", ""):
             return "tokens lost, added or reordered: %r printed as %r" % (e, p1)
+        if struct(n1) != struct(n2):
+            return "printing changes the structure of the expression (parentheses it needs are dropped or operands regrouped): %r printed as %r" % (e, p1)
         return None
     decl = inp["text"]
     try:
@@ -57,6 +138,15 @@ def check(inp):
         b = parse(g)
     except (RuntimeError, NotImplementedError) as ex:
         return "own rendering %r of %r is rejected: %s" % (g, decl, str(ex)[:80])
+    # renderers are queries: the declaration is the same after each of them
+    before = shape(a)
+    for rname in ("gen_decl", "gen_arg_as_c", "gen_arg_as_cxx", "gen_arg_as_fortran", "bind_c", "__str__"):
+        try:
+            getattr(a, rname)()
+        except Exception:
+            continue
+        if shape(a) != before:
+            return "%s() changed the declaration %r: %r -> %r" % (rname, decl, before, shape(a))
     if shape(a) != shape(b):
         return "re-parsing the rendering %r of %r gives another declaration: %r vs %r" % (g, decl, shape(a), shape(b))
     if b.gen_decl() != g:
@@ -78,7 +168,60 @@ PTRS = ["", "*", "&", "**", "*&", "* const", "* const *", "const *"]
 ATTRS = ["", " +intent(in)", " +rank(1)", " +dimension(n,m)", " +value", " +len=30", " +name(other)", " +deref(pointer)"]
 
 
+def expr_family():
+    """all parenthesisations of up to four operands over + - * / (explicit parentheses around every inner node, and
+    around right operands only)"""
+    ops = ["+", "-", "*", "/"]
+    names = ["a", "b", "c", "d"]
+
+    def trees(lo, hi):
+        if hi - lo == 1:
+            yield names[lo]
+            return
+        for mid in range(lo + 1, hi):
+            for l in trees(lo, mid):
+                for r in trees(mid, hi):
+                    yield (l, r)
+
+    def render(t, opsit, full):
+        if isinstance(t, str):
+            return t
+        op = next(opsit)
+        l = render(t[0], opsit, full)
+        r = render(t[1], opsit, full)
+        if not isinstance(t[0], str) and full:
+            l = "(" + l + ")"
+        if not isinstance(t[1], str):
+            r = "(" + r + ")"
+        return l + op + r
+    for n in (2, 3, 4):
+        for t in trees(0, n):
+            for combo in itertools.product(ops, repeat=n - 1):
+                for full in (True, False):
+                    yield render(t, iter(combo), full)
+
+
+def cxx_family():
+    out = []
+    for s, p in itertools.product(SPEC, PTRS):
+        out.append("%s %s a" % (s, p))
+        out.append("%s %sf(%s %sa, double b)" % (s, p if "const" not in p else "*", s, p))
+    for s in SPEC:
+        out += ["%s a[3]" % s, "%s a[3][4]" % s, "void f(%s (*cb)(int, %s *))" % (s, s), "void f(%s *)" % s, "void f(%s)" % s,
+                "void f(%s *, %s)" % (s, s), "%s *f(void)" % s, "%s f()" % s, "void f(%s (*)(void))" % s,
+                "void f(const %s * const * a)" % s.replace("const ", ""), "std::vector<%s> f(std::vector<%s> &v)" % (
+                    s.replace("const ", ""), s.replace("const ", ""))]
+    out = [t for t in out if not t.startswith("void  a") and not t.startswith("void & ") and "void &" not in t and "void a[" not in t
+           and "std::vector<void>" not in t and not t.startswith("const void") or "*" in t]
+    return out
+
+
 def candidates(seed, around=None):
+    fam = cxx_family()
+    for i in range(0, len(fam), 60):
+        yield {"kind": "cxx", "texts": fam[i:i + 60]}
+    for e in expr_family():
+        yield {"kind": "expr", "text": e}
     for s, p, at in itertools.product(SPEC, PTRS, ATTRS):
         yield {"text": "%s %s a%s" % (s, p, at)}
     for s, p in itertools.product(SPEC, PTRS[:5]):
@@ -86,6 +229,8 @@ def candidates(seed, around=None):
         yield {"text": "%s %sf(void)" % (s, p)}
         yield {"text": "void f(%s (*cb)(int, %s %s))" % (s, s, p)}
         yield {"text": "%s a[3]" % s}
+        yield {"text": "%s a[3][4]" % s}
+        yield {"text": "void f(%s field[4][5])" % s}
         yield {"text": "std::vector<%s> %sv" % (s.replace("const ", ""), p)}
     exprs = ["1", "a", "a+b", "a+b*c", "(a+b)*c", "a-b-c", "a/b/c", "a-(b-c)", "-a", "- -a", "1 - -1", "a*-b", "f(a)", "f(a,b)", "f(a,)",
              "size(a)+1", "2*(3+4)", "a+(b)", "((a))", "+a", "f()", "a*b+c*d", "a/(b*c)"]
